@@ -321,6 +321,41 @@ func runC04(r *vk.Run) {
 			c.Fail("", fmt.Sprintf("%d data race report(s), %d distinct", blocks, len(distinct)), map[string]any{"reports": distinct})
 		})
 	}
+	// conservation includes "or an error": a container whose stream breaks on its very first frame
+	// (a TTY container's raw stream, a reset before the first byte) cannot silently contribute nothing
+	r.Phase("brokenfirst", r.N(60, 6000), func(c *vk.Case) {
+		rng := c.Rng
+		n := rng.Range(2, 5)
+		inv := genMergeInventory(rng, n, 5)
+		bad := rng.Intn(n)
+		for len(inv[bad].Frames) == 0 {
+			inv[bad].Frames = []Frame{{Type: 1, TS: 1700000000e9, Body: "only"}}
+		}
+		fd := newFakeDocker(inv)
+		kind := vk.Pick(rng, []string{"raw-tty-stream", "reset-before-first-byte", "daemon-error-first", "bad-first-timestamp"})
+		switch kind {
+		case "raw-tty-stream":
+			fd.Containers[bad].Stream = []byte("plain text of a tty container, no frame headers at all\r\nsecond line\r\n")
+		case "reset-before-first-byte":
+			fd.Containers[bad].Plan.FailAt = 0
+			fd.Containers[bad].Plan.FailErr = c14ReadErrs[rng.Intn(len(c14ReadErrs))]
+		case "daemon-error-first":
+			mod := append([]Frame{{Type: 3, Raw: "error from daemon in stream: boom"}}, inv[bad].Frames...)
+			fd.Containers[bad].Stream = EncodeFrames(mod)
+		case "bad-first-timestamp":
+			mod := append([]Frame(nil), inv[bad].Frames...)
+			mod[0].Raw = "2024-13-01T00:00:00.000000000Z x"
+			fd.Containers[bad].Stream = EncodeFrames(mod)
+		}
+		got, openErr, iterErr := drainSelect(fd)
+		c.Eval(1)
+		if openErr == nil && iterErr == nil {
+			c.Fail("", fmt.Sprintf("container %d of %d breaks on its first frame (%s) but the merge reports no error and delivers %d records", bad, n, kind, len(got)), map[string]any{"inventory": inv, "broken": bad, "kind": kind, "merged": got})
+			return
+		}
+		c.Count("broken_first_frame_merges", 1)
+	})
+	r.Require("broken_first_frame_merges", 40)
 	r.Require("inventories_all_orders", 12)
 	r.Require("distinct:completion_orders", 150)
 	r.Require("orders_realised_as_planned", 400)
